@@ -33,6 +33,7 @@ def coverage(prop, executed, rejected, tier):
     samples = [res["sample"] for res in executed[:3] if res.get("sample")]
     return {
         "evaluations": len(executed),
+        "productive_results_judged": int(total.get("layouts", 0)),
         "distinct_nontrivial": len(nontrivial),
         "rule": RULE,
         "samples": samples,
